@@ -25,8 +25,10 @@ def money():
 
 
 @guarded('C08')
-def run_table_entry(code):
-    """registration twice, name, smallest fraction, rounding"""
+def run_table_entry(code, mode='ROUND_HALF_EVEN'):
+    """registration twice, name, smallest fraction, rounding -- with `mode`
+    as the default rounding mode while the currency is first registered"""
+    O.set_mode(mode)
     Money = money()
     functional, _ = O.iso_table()
     ent = functional[code]
@@ -53,11 +55,11 @@ def run_table_entry(code):
                     f"table says 10**-{minor}"))
     for a in AMTS:
         m = Money(O.dec(a), c1)
-        want = O.round_to(O.val(a), sf, 'ROUND_HALF_EVEN')
+        want = O.round_to(O.val(a), sf, mode)
         if type(m) is not Money or m.unit is not c1 or m.currency is not c1 \
                 or O.fr(m.amount) != want:
-            out.append(('C08:iso:rounding', f"Money({a}, {code}) = {m!r}, "
-                        f"expected {want}"))
+            out.append(('C08:iso:rounding', f"Money({a}, {code}) [{mode}] = "
+                        f"{m!r}, expected {want}"))
     return out
 
 
@@ -313,15 +315,16 @@ def part_pairs(p, prelude):
     return st
 
 
-def part_table(codes):
+def part_table(p):
+    codes, mode = p
     st = Stats()
     for code in codes:
         st.paths += 1
         st.transitions += 2 + len(AMTS)
         st.evaluations += 4 + len(AMTS)
-        st.state(('iso', code), nontrivial=True)
-        for sig, msg in run_table_entry(code):
-            st.violation(sig, msg, {'iso': code})
+        st.state(('iso', code, mode), nontrivial=True)
+        for sig, msg in run_table_entry(code, mode):
+            st.violation(sig, msg, {'iso': code, 'mode': mode})
     return st
 
 
@@ -355,7 +358,8 @@ def part_misc(_):
 def replay(case):
     Money = money()
     if 'iso' in case:
-        return run_table_entry(case['iso'])
+        return run_table_entry(case['iso'],
+                               case.get('mode', 'ROUND_HALF_EVEN'))
     if 'reject' in case:
         return run_reject(case['reject'])
     if 'user' in case:
@@ -373,8 +377,8 @@ def run(tier, seed):
     functional, other = O.iso_table()
     codes = sorted(functional)
     total = Stats()
-    total.merge(pmap(part_table, [codes[i::16] for i in range(16)],
-                     fresh=True))
+    total.merge(pmap(part_table, [(codes[i::8], m) for i in range(8)
+                                  for m in O.MODES], fresh=True))
     total.merge(pmap(part_misc, [0], fresh=True))
     if tier == 'thorough':
         sub = codes
@@ -395,7 +399,8 @@ def run(tier, seed):
     total.extra['currencies_in_pair_part'] = len(sub)
     return total, dict(
         rule=f"all {len(codes)} functional currencies of the bundled table "
-             "(registered twice, name, smallest fraction, 5 roundings); "
+             "(registered twice, name, smallest fraction, 5 roundings), each "
+             "first registered under each of the 8 default rounding modes; "
              "rejected codes; all combinations of minor_unit in "
              "{None,0..4,-1} x 12 smallest fractions for user currencies x "
              f"10 amounts x 3 forms; all ordered pairs of {len(sub)} "
